@@ -103,7 +103,8 @@ def cases(tier: str, seed: int) -> list[dict]:
                 for variant in (1, 2):
                     out.append({"src": "vec", "init": [c], "events": [dict(e) for e in ev], "variant": variant})
     # (b) behaviours from TLC.  MC_C11_defs!TheContents as canonical indexes:
-    the_contents = [encode("1d", 0, 10, 0), encode("2d", 1 + 2, 0, 30), encode("none", 8 + 32, 20, 0), encode("mixed", 1 + 8 + 16, 0, 0)]
+    the_contents = [encode("1d", 0, 10, 0), encode("2d", 1 + 2, 0, 30), encode("none", 8 + 32, 20, 0), encode("mixed", 1 + 8 + 16, 0, 0),
+                    encode("2d", 1 + 2 + 4, 0, 0)]
     beh = _emit(3 if tier == "quick" else 4, 300 if tier == "quick" else 3000, seed)
     seen = set()
     for b in beh:
